@@ -1208,6 +1208,11 @@ func (m *Tx) Deserialize(r io.Reader) error {
 
 // Serialize writes the message to a writer.
 func (m Tx) Serialize(w io.Writer) error {
+	// The output count is not written. Deserialize reads one output per input.
+	if m.Tx == nil || len(m.Outputs) != len(m.Tx.TxIn) {
+		return errors.New("tx: wrong spent output count")
+	}
+
 	if err := wire.WriteVarInt(w, wire.ProtocolVersion, m.ID); err != nil {
 		return errors.Wrap(err, "id")
 	}
